@@ -334,6 +334,33 @@ def prove_network(src_root, ex: Explorer):
                   f'configured limits (download {d}, upload {u}) were applied as {calls}: a removed or changed limit is not taken over')
     ex.run(load, 'load-limits')
 
+    def init_limiters(ctx: Ctx):
+        """Network.__init__: the limiter of each direction is created from the configured limit of THAT direction.  Only the statements of
+        __init__ that assign the two limiter attributes are executed (with the real create_limiter and any helper they call)."""
+        import ast as _ast
+        it = mk(src_root, ctx)
+        ncls = cls(it, NET, 'Network')
+        init = it.class_attr(ncls, '__init__')
+        fnode = init.node if hasattr(init, 'node') else init.func.node
+        limits = Stub('limits', upload_speed_kbps=20, download_speed_kbps=50)
+        net = new(it, NET, 'Network', _settings=Stub('settings', network=Stub('network', limits=limits)))
+        stmts = [st for st in fnode.body if isinstance(st, (_ast.Assign, _ast.AnnAssign)) and getattr(st, 'value', None) is not None
+                 and any(a in _ast.unparse(st) for a in ('_upload_rate_limiter', '_download_rate_limiter'))]
+        if not stmts:
+            raise Unsupported('Network.__init__: the assignments of the rate limiters were not found')
+        from pyvc.interp import Env
+        pf = init if hasattr(init, 'node') else init.func
+        env = Env(pf, pf.module)
+        env.vars['self'] = net
+        env.vars['settings'] = net.attrs['_settings']
+        for st in stmts:
+            it.exec_stmt(st, env)
+        up, down = net.attrs.get('_upload_rate_limiter'), net.attrs.get('_download_rate_limiter')
+        ok = isinstance(up, Obj) and isinstance(down, Obj) and unbox(up.attrs.get('limit_bps')) == 20 * 1024 and unbox(down.attrs.get('limit_bps')) == 50 * 1024
+        ctx.prove('C20.network.init-limiters', ok, f'upload limit 20 KiB/s, download limit 50 KiB/s configured: upload limiter '
+                  f'{unbox(up.attrs.get("limit_bps")) if isinstance(up, Obj) else up!r} B/s, download limiter {unbox(down.attrs.get("limit_bps")) if isinstance(down, Obj) else down!r} B/s')
+    ex.run(init_limiters, 'init-limiters')
+
     def finalize(ctx: Ctx):
         it = mk(src_root, ctx)
         net = new(it, NET, 'Network')
